@@ -282,7 +282,7 @@ fn run(ctx: &mut Ctx) {
         ..Plan::default()
     };
     for_each_input(ctx, &plan, &mut |ctx, input, src, _r| {
-        let mut lim = if src == Src::Pool { max_len_pool } else { max_len_tok };
+        let mut lim: usize = if src == Src::Pool { max_len_pool } else { max_len_tok };
         // sanitizer layers: exhaustive cut sets only for the shortest inputs
         if ctx.scale_pct <= 2 {
             lim = if src == Src::Pool { 8 } else { 5 };
